@@ -48,6 +48,9 @@ class AgreeUnit(Unit):
             L.append('    assert(xe is None);')
         lem_l.append('// @@FN vx_agree\nfn vx_agree%s() %s\n{\n%s\n}\n// @@END vx_agree' % (prog.generics_decl, prog.where_clause, '\n'.join(L)))
         return '\n'.join(pre_l), plan, consts, lem + '\n' + '\n'.join(lem_l)
+    def candidate_replay(self, ctx, prog, o):
+        from .. import lreplay
+        return lreplay.printers(prog, o.fn)
     def verus_text(self, ctx, prog, pre, asm, lemmas):
         der = '#[derive(Clone, Copy)]\n' if 'VariantArray' in prog.derives else ''
         return '\n'.join([prog.aux_verus, der + prog.verus_enum(), pre, asm.text, lemmas])
